@@ -4,8 +4,13 @@ ENTRY = dict(
     level_text=("Lean 4 on the engine model: the parent token is held while any inner token of the sub-process is alive "
                 "(settle releases nothing then), for every configuration, program and state; kernel-checked witnesses that "
                 "the two code defects separate the code configuration from the token game (parent never resumes: repaired in "
-                "/repo, now an extracted-fact obligation; second activation skips the content: known finding). The general "
-                "`wrapped = inlined` statement over all block contexts is NOT proved; it is decided per generated pair: every "
+                "/repo, now an extracted-fact obligation; second activation skips the content: repaired too). UNBOUNDED FAMILIES "
+                "for the three clauses of the statement (Props/C12Nest, C12Loop, C12Blind): any nesting depth d around a chain "
+                "of any length K (induction on d and along the chain; wrapped = inlined against the chain theorem), a "
+                "sub-process entered again and again in a loop for any bound and any number of rounds, and scope-blindness "
+                "of every node transition; each carried to the configuration extracted from /repo and tied to the real "
+                "engine by running the theorems' own programs (c12nest, c12loop). The general "
+                "`wrapped = inlined` statement over ALL block contexts is NOT proved; it is decided per generated pair: every "
                 "case runs the same seeded program with its sub blocks wrapped in 1..3 nested embedded sub-processes and with "
                 "the content inlined, same data and answer policy, on the real engine; each run is replayed in lock-step "
                 "through the engine model and the token game, and the two request histories and final states must coincide. "
